@@ -93,6 +93,16 @@ where
     }
 }
 
+// Verification hook (see /verif/DESIGN.md): observer only.
+#[cfg(zlink_verif)]
+#[doc(hidden)]
+impl<S: Socket, ReplyParams, ReplyError> Chain<'_, S, ReplyParams, ReplyError> {
+    /// (number of calls enqueued, number of replies the stream will wait for).
+    pub fn verif_counts(&self) -> (usize, usize) {
+        (self.call_count, self.reply_count)
+    }
+}
+
 #[cfg(test)]
 mod tests {
     use super::*;
